@@ -47,6 +47,19 @@ claim("C18", "other",
   "Header fields are what thrift decoded; selectors and supported constants come from the schema package by name (PageHeader.Type, DataPageHeader.{Encoding,DefinitionLevelEncoding,RepetitionLevelEncoding}, CompressionCodec).",
   "static analysis: path-sensitive must-check-before-use exploration on go/ssa CFGs (FG rule) + error-propagation check (EP)", "DESIGN.md §4 FG, §5 C18")
 
+claim("C03", "translation_validation",
+  "Per generated program: every column's shredder function is abstractly interpreted into a decision tree over (access path, nil/empty) tests with emissions (def, rep, value path) and compared with the canonical Dremel shredder derived from the struct's go/types description; Fields() hands the runtime the struct's own column list, paths and repetition kinds. Each comparison holds for ALL records of the shape; shapes are enumerated exhaustively in the thorough tier (bounded grammar: depth <= 3, <= 2 children per group, all kind combinations, 2013 programs).",
+  "Bounded grammar of struct shapes; structured-AST subset the generator emits (anything else is undecided = failure). Programs that do not type-check are C05 findings and skipped here. Level bit widths / RLE bytes not decided here.",
+  "static analysis: translation validation — abstract interpretation of generated shredders (go/ast + go/types) against a reference computed from the struct type", "DESIGN.md §4 TV, §5 C03")
+claim("C05", "translation_validation",
+  "Per generated program over the bounded grammar: generation succeeds and is byte-deterministic, the output type-checks against today's runtime, Fields() matches the struct, shredders are canonical, and each assembler case (def, rep) has exactly the required effect (no clobber, no dangling access, exact creation, right indices, coverage, value counting) — for all values of the shape. 'Silently wrong' = type-checks and a TV obligation is violated. Known findings (generator case-analysis defects D6, validated shape by shape against a dynamic round-trip harness at development time) are listed per (shape, column, case); any other violation is reported.",
+  "Template-fixed drivers (indices.rep, Scan order) assumed; shapes outside the grammar not covered. Known-findings list in /verif/known_findings_c05.jsonl.",
+  "static analysis: translation validation — type-check + AST-level symbolic evaluation of generated assemblers/shredders against a go/types-derived reference; exhaustive enumeration of a finite struct grammar", "DESIGN.md §4 TV, §5 C05")
+claim("C14", "translation_validation",
+  "Per (base struct, decorated struct) pair — excluded fields of assorted types inserted everywhere / per nesting level; field runs moved into embedded structs everywhere / per level — the generated program must be textually identical to the base program, type-check against the decorated struct and re-validate against the reference columns computed from the decorated struct (embedded inlined, excluded skipped): identical programs produce byte-identical files and never touch excluded fields. Known findings: decorated structs for which the identical program does not compile (positional literals, promoted fields in literals).",
+  "Base shapes = corpus shapes whose own program discharges C05. Known-findings list in /verif/known_findings_c14.jsonl (validated: each listed pair fails to build).",
+  "static analysis: translation validation over program pairs (text identity + go/types re-validation)", "DESIGN.md §4 TV-inert, §5 C14")
+
 NA_DEFAULT = "check not built yet (static-analysis framework under construction, see DESIGN.md §9)"
 NA = {}
 checks = []
